@@ -427,20 +427,7 @@ impl Broker {
                 self.send(tr, p);
                 tr.eof = true;
             }
-            Handshake::Garbage(mut bytes) => {
-                // "Garbage" must not happen to be a CONNACK the client accepts (the broker model
-                // would not know about that session): apart from the listed protocol-error
-                // CONNACKs, which the client rejects while reading the properties, a first byte of
-                // 0x20 is turned into 0x21 (CONNACK with reserved flag bits set)
-                const REJECTED: [&[u8]; 4] = [
-                    &[0x20, 0x06, 0x00, 0x00, 0x03, 0x21, 0x00, 0x00],
-                    &[0x20, 0x05, 0x00, 0x00, 0x02, 0x24, 0x03],
-                    &[0x20, 0x06, 0x01, 0x00, 0x03, 0x21, 0x00, 0x00],
-                    &[0x20, 0x05, 0x01, 0x00, 0x02, 0x24, 0x03],
-                ];
-                if bytes.first() == Some(&0x20) && !REJECTED.contains(&bytes.as_slice()) {
-                    bytes[0] = 0x21;
-                }
+            Handshake::Garbage(bytes) => {
                 self.queue(tr, None, bytes, None);
                 tr.eof = true;
             }
